@@ -59,6 +59,7 @@ ERRNOS = {
     "EBUSY": _errno.EBUSY,
     "EPERM": _errno.EPERM,
     "EINTR": _errno.EINTR,
+    "EXDEV": _errno.EXDEV,
     "EROFS": _errno.EROFS,
     "EMFILE": _errno.EMFILE,
 }
